@@ -16,6 +16,8 @@ pub mod gc;
 pub mod immix;
 /// Stage table and constants of the work-packet scheduler.
 pub mod sched;
+/// Stand-alone BlockPageResource for real-thread races (strengthened C28).
+pub mod gcfix;
 /// Hooks for heap layout (Map32, chunk-state mmapper, SFT / VM map lookups).
 pub mod layout;
 /// Hooks that drive the large object space of a real plan by hand.
